@@ -631,35 +631,52 @@ func C03(c *core.Ctx) {
 			checkUnmarshal(c, c.P.SSAFn(m), "ReportingTrigger", c.P.Field(pkgReport, "ReportingTrigger", "Flags"), 2, 32)
 		})
 	}
-	c03Periodic(c)
+	c03Periodic(c, "R8", true)
 }
 
 // R8 periodic registration
-func c03Periodic(c *core.Ctx) {
+func c03Periodic(c *core.Ctx, rule string, withUpdateSibling bool) {
 	p := c.P
 	add := p.Method(pkgPerio, "Server", "AddPeriodReportTimer")
 	del := p.Method(pkgPerio, "Server", "DelPeriodReportTimer")
 	if add == nil || del == nil {
-		c.Anchor("R8", "perio.Server.{Add,Del}PeriodReportTimer")
+		c.Anchor(rule, "perio.Server.{Add,Del}PeriodReportTimer")
 		return
 	}
-	create := fnOf(c, "R8", pkgFwd, "Gtp5g", "CreateURR")
-	remove := fnOf(c, "R8", pkgFwd, "Gtp5g", "RemoveURR")
-	update := fnOf(c, "R8", pkgFwd, "Gtp5g", "UpdateURR")
+	create := fnOf(c, rule, pkgFwd, "Gtp5g", "CreateURR")
+	remove := fnOf(c, rule, pkgFwd, "Gtp5g", "RemoveURR")
+	update := fnOf(c, rule, pkgFwd, "Gtp5g", "UpdateURR")
 	if create == nil || remove == nil || update == nil {
 		return
 	}
+	// The periodic server keeps one entry per (SEID, URR, period group) and a removal clears only the first
+	// group it finds, so a URR must never be registered twice: registration happens in Create URR, and a
+	// re-registration (Update URR) is acceptable only behind an unregistration of the same (SEID, URR).
 	nAdd := 0
 	for _, fn := range p.OwnFuncs() {
 		for _, ci := range core.Calls(fn, add) {
-			nAdd++
-			c.Check("R8", "add-caller:"+core.FnName(fn), ci.Pos(), fn == create, "periodic reporting is registered only by the driver's Create URR")
+			okCaller := fn == create
+			if fn == create {
+				nAdd++
+			}
+			if fn == update {
+				for _, dc := range core.Calls(fn, del) {
+					da, aa := core.CallArgs(dc), core.CallArgs(ci)
+					if core.InstrDominates(dc.(ssa.Instruction), ci.(ssa.Instruction)) && core.Unwrap(da[0]) == core.Unwrap(aa[0]) && core.Unwrap(da[1]) == core.Unwrap(aa[1]) {
+						okCaller = true
+					}
+				}
+			}
+			c.Check(rule, "add-caller:"+core.FnName(fn), ci.Pos(), okCaller, "periodic reporting is registered by the driver's Create URR (or re-registered by Update URR right after unregistering the same URR): otherwise a second registration survives the URR's removal")
 		}
 		for _, ci := range core.Calls(fn, del) {
-			c.Check("R8", "del-caller:"+core.FnName(fn), ci.Pos(), fn == remove, "periodic reporting is unregistered only by the driver's Remove URR")
+			c.Check(rule, "del-caller:"+core.FnName(fn), ci.Pos(), fn == remove || fn == update, "periodic reporting is unregistered only by the driver's Remove URR / Update URR")
 		}
 	}
-	c.Check("R8", "add-once", create.Pos(), nAdd == 1, fmt.Sprintf("%d registration sites (want 1)", nAdd))
+	c.Check(rule, "add-once", create.Pos(), nAdd == 1, fmt.Sprintf("%d registration sites in Create URR (want 1)", nAdd))
+	evtCh := p.Field(pkgPerio, "Server", "evtCh")
+	losslessPost(c, rule, p.SSAFn(add), evtCh, "registration with the periodic server")
+	losslessPost(c, rule, p.SSAFn(del), evtCh, "unregistration from the periodic server")
 	x := newExtractor(p, create)
 	for _, ci := range core.Calls(create, add) {
 		in := ci.(ssa.Instruction)
@@ -681,13 +698,13 @@ func c03Periodic(c *core.Ctx) {
 				}
 			}
 		}
-		c.Check("R8", "add-iff-perio", ci.Pos(), guard, "registration happens exactly under PERIO() of the reporting triggers decoded from this request")
+		c.Check(rule, "add-iff-perio", ci.Pos(), guard, "registration happens exactly under PERIO() of the reporting triggers decoded from this request")
 		args := core.CallArgs(ci)
-		c.Check("R8", "add-seid", ci.Pos(), core.Unwrap(args[0]) == ssa.Value(core.Param(create, 0)), "registered under the caller's SEID")
-		c.Check("R8", "add-urrid", ci.Pos(), x.describeLeaf(args[1], 0) == "URRID()", "registered under the URR id of this request ("+x.describeLeaf(args[1], 0)+")")
-		c.Check("R8", "add-period", ci.Pos(), x.describeLeaf(args[2], 0) == "MeasurementPeriod()", "registered with the measurement period of this request, untruncated ("+x.describeLeaf(args[2], 0)+")")
+		c.Check(rule, "add-seid", ci.Pos(), core.Unwrap(args[0]) == ssa.Value(core.Param(create, 0)), "registered under the caller's SEID")
+		c.Check(rule, "add-urrid", ci.Pos(), x.describeLeaf(args[1], 0) == "URRID()", "registered under the URR id of this request ("+x.describeLeaf(args[1], 0)+")")
+		c.Check(rule, "add-period", ci.Pos(), x.describeLeaf(args[2], 0) == "MeasurementPeriod()", "registered with the measurement period of this request, untruncated ("+x.describeLeaf(args[2], 0)+")")
 		// after the loop: not inside the IE loop (order independence is R4; here: the call's block is not in a loop)
-		c.Check("R8", "add-after-loop", ci.Pos(), loopHeaderOf(in) == in.Block() && !inAnyLoop(in), "registration is decided after all child IEs have been read")
+		c.Check(rule, "add-after-loop", ci.Pos(), loopHeaderOf(in) == in.Block() && !inAnyLoop(in), "registration is decided after all child IEs have been read")
 		// every non-PERIO path skips it, and the PERIO path always reaches it or returns an error
 	}
 	// without PERIO no registration: implied by add-iff-perio + add-once
@@ -705,7 +722,10 @@ func c03Periodic(c *core.Ctx) {
 			}
 		}
 	}
-	c.Check("R8", "del-on-remove", remove.Pos(), okDel, "Remove URR always unregisters (caller's SEID, URR id of this request) before the rule is removed")
+	c.Check(rule, "del-on-remove", remove.Pos(), okDel, "Remove URR always unregisters (caller's SEID, URR id of this request) before the rule is removed")
+	if !withUpdateSibling {
+		return
+	}
 	// sibling: Update URR decodes Reporting Triggers as well
 	decodes := false
 	core.Instrs(update, func(in ssa.Instruction) {
@@ -715,7 +735,7 @@ func c03Periodic(c *core.Ctx) {
 	})
 	if decodes {
 		follows := len(core.Calls(update, add)) > 0 || len(core.Calls(update, del)) > 0
-		c.Check("R8", "update-follows-perio", update.Pos(), follows,
+		c.Check(rule, "update-follows-perio", update.Pos(), follows,
 			"Update URR accepts new Reporting Triggers (and Measurement Period) but never registers/unregisters periodic reporting: adding or removing PERIO by Update URR is not followed")
 	}
 }
